@@ -344,6 +344,7 @@ class DC:
         self.header_sign = True
         self.auth = "ntlm"            # ntlm | negotiate
         self.transcript: list[dict] = []
+        self.reply_not_last = False     # sealed replies are marked "not the last fragment" (a server that fragments its replies)
         self.alloc_hint = "padded"      # alloc_hint policy of RESPONSE PDUs: "padded" | "unpadded" | "zero" (it is only a hint)
         self.getkey_log: list[dict] = []
         self._tables: dict[tuple, KeySet] = {}
@@ -625,11 +626,15 @@ class Connection:
 
         if pad is None:
             pad = (-len(stub) % 16 + 16 * self.dc.name_pad) % 16 if False else (-len(stub) % 16)
-        body = stub + b"\x00" * pad
+        # authentication padding octets and the auth_reserved octet of the trailer carry no meaning (the receiver strips by
+        # pad_length and ignores auth_reserved): arbitrary values, chosen by the content so that a message is always encoded alike
+        v = len(stub) + (stub[-1] if stub else 0)
+        body = stub + bytes((0xA5 + 7 * i + v) & 0xFF or 1 for i in range(pad))
+        reserved = (0, 0x5A, 0, 0xFF)[v % 4]
         sig_len = len(auth["value"])
-        hdr = pdu_header(PT_RESPONSE, PFC_FIRST | PFC_LAST, 16 + 8 + len(body) + 8 + sig_len, sig_len, h["call_id"])
+        hdr = pdu_header(PT_RESPONSE, PFC_FIRST | (0 if self.dc.reply_not_last else PFC_LAST), 16 + 8 + len(body) + 8 + sig_len, sig_len, h["call_id"])
         hdr += struct.pack("<IHBB", {"padded": len(body), "unpadded": len(stub), "zero": 0}[self.dc.alloc_hint], ctx_id, 0, 0)   # only a hint
-        tr8 = struct.pack("<BBBBI", auth["type"], auth["level"], pad, 0, auth["ctx"])
+        tr8 = struct.pack("<BBBBI", auth["type"], auth["level"], pad, reserved, auth["ctx"])
         so = iov.BufferType.sign_only if self.sign_header else iov.BufferType.data_readonly
         res = self.ctx.wrap_iov([(so, hdr), body, (so, tr8), iov.BufferType.header], encrypt=True, qop=None)
         out = hdr + (res.buffers[1].data or b"") + tr8 + (res.buffers[3].data or b"")
